@@ -2666,7 +2666,7 @@ static int cfg_opt_print_pff_indent(cfg_opt_t *opt, FILE *fp,
 		} else {
 			cfg_indent(fp, indent);
 			/* comment out the option if is not set */
-			if (cfg_opt_size(opt) == 0 ||
+			if ((cfg_opt_size(opt) == 0 && !opt->simple_value.ptr) ||
 			    (opt->type == CFGT_STR && !cfg_opt_getnstr(opt, 0)))
 				fprintf(fp, "# ");
 			fprintf(fp, "%s=", opt->name);
